@@ -1477,6 +1477,29 @@ class Interp:
         for t in st.targets:
             if isinstance(t, ast.Name):
                 frame.env.pop(t.id, None)
+            elif isinstance(t, ast.Subscript):
+                o = self.ev(t.value, frame)
+                idx = self.ev_index(t.slice, frame)
+                if isinstance(o, DictV) and _concrete(idx):
+                    n0 = len(o.entries)
+                    o.entries = [(k, v) for k, v in o.entries if not (k == idx)]
+                    if len(o.entries) == n0 and not o.open:
+                        raise AbsRaise('KeyError', st)
+                elif isinstance(o, Tup) and o.kind == 'list' and isinstance(idx, Const) and isinstance(idx.v, int) and -len(o.items) <= idx.v < len(o.items):
+                    del o.items[idx.v]
+                elif isinstance(o, Tup) and o.kind == 'list' and isinstance(idx, Slice) and all(isinstance(x, Const) for x in (idx.lo, idx.hi, idx.step)):
+                    del o.items[slice(idx.lo.v, idx.hi.v, idx.step.v)]
+                elif isinstance(o, Unknown):
+                    pass
+                else:
+                    # an entry removed from a container under a key that is not followed: what the container holds afterwards is not known
+                    raise AnalysisError('`%s` at line %d is not followed' % (ast.unparse(st)[:60], st.lineno))
+            elif isinstance(t, ast.Attribute):
+                o = self.ev(t.value, frame)
+                if isinstance(o, Obj):
+                    o.attrs.pop(t.attr, None)
+                elif not isinstance(o, Unknown):
+                    raise AnalysisError('`%s` at line %d is not followed' % (ast.unparse(st)[:60], st.lineno))
 
     def st_If(self, st, frame):
         if self.branch(st.test, frame):
@@ -2200,6 +2223,15 @@ class Interp:
         d = DictV()
         for k, v in zip(node.keys, node.values):
             if k is None:
+                # {**other, ...}: the entries of the other dictionary, when they are known
+                o = self.ev(v, frame)
+                if isinstance(o, DictV):
+                    for kk, vv in o.entries:
+                        d.set(kk, vv)
+                    if o.open:
+                        d.open = True
+                else:
+                    d.open = True
                 continue
             d.set(self.ev(k, frame), self.ev(v, frame))
         return d
